@@ -57,6 +57,12 @@ Definition of_be (l : list N) : N := fold_left (fun a c => a * 256 + c) l 0.
 Definition int_to_cmp (v : Z) : N := Z.to_N (v + Z.of_N two63).
 Definition cmp_to_int (u : N) : Z := (Z.of_N u - Z.of_N two63)%Z.
 Definition compl64 (u : N) : N := two64 - 1 - u.
+(* Go's conversion uint64(v) of an int64: the two's-complement reinterpretation; the code computes the flip as
+   uint64(v) ^ signMask and int64(u ^ signMask) — Props relate these bit-level forms to int_to_cmp / cmp_to_int *)
+Definition u64_of_int (v : Z) : N := Z.to_N (v mod Z.of_N two64).
+Definition int_of_u64 (u : N) : Z := (if Z.of_N u <? Z.of_N two63 then Z.of_N u else Z.of_N u - Z.of_N two64)%Z.
+Definition int_to_cmp_xor (v : Z) : N := N.lxor (u64_of_int v) two63.
+Definition cmp_to_int_xor (u : N) : Z := int_of_u64 (N.lxor u two63).
 
 Definition encode_uint (v : N) : list N := be 8 v.
 Definition encode_uint_desc (v : N) : list N := be 8 (compl64 v).
